@@ -14,8 +14,8 @@ from typing import Any, Callable, Dict, Iterable, List, Optional, Tuple
 
 VERIF = pathlib.Path(__file__).resolve().parent.parent
 REPO = pathlib.Path(os.environ.get("VERIF_REPO", "/repo"))
-EVIDENCE_DIR = VERIF / "evidence"
-REPLAY_DIR = VERIF / "replays"
+EVIDENCE_DIR = pathlib.Path(os.environ.get("VERIF_EVIDENCE_DIR", str(VERIF / "evidence")))      # override: testing aid for parallel seed runs
+REPLAY_DIR = pathlib.Path(os.environ.get("VERIF_REPLAY_DIR", str(VERIF / "replays")))
 PY = str(VERIF / ".venv" / "bin" / "python")
 
 EXIT_OK = 0            # all queries discharged (KNOWN-FINDING lines allowed)
